@@ -85,3 +85,21 @@ void h_iterInitParent_frame(void) {
     _iterInitParent(nondet_u64(), nondet_int(), &it);
     __CPROVER_assert(0, "canary _iterInitParent frame");
 }
+
+void h_validatePolygonFlags(void) { uint32_t flags = nondet_u32(); H3Error e = validatePolygonFlags(flags); __CPROVER_assert(0, "canary validatePolygonFlags"); }
+void h_polygonToCells_badflags(void) {
+    const GeoPolygon *p; int res = nondet_int(); uint32_t flags = nondet_u32(); H3Index *out;
+    H3Error e = polygonToCells(p, res, flags, out);
+    __CPROVER_assert(0, "canary polygonToCells badflags");
+}
+void h_maxPolygonToCellsSize_badflags(void) {
+    const GeoPolygon *p; int res = nondet_int(); uint32_t flags = nondet_u32(); int64_t *out;
+    H3Error e = maxPolygonToCellsSize(p, res, flags, out);
+    __CPROVER_assert(0, "canary maxPolygonToCellsSize badflags");
+}
+void h_polygonToCells(void) {
+    const GeoPolygon *p; int res = nondet_int(); uint32_t flags = nondet_u32(); H3Index *out;
+    h3v_n = nondet_i64();
+    H3Error e = polygonToCells(p, res, flags, out);
+    __CPROVER_assert(0, "canary polygonToCells");
+}
